@@ -166,6 +166,7 @@ def problem_spec(
     narrow: bool = False,
     kappa_max_exp: float = 4.0,
     face_bias: bool = True,
+    units: bool = False,
 ):
     n = draw(st.integers(n_min, n_max))
     obj = draw(objective_spec(n, families, kappa_max_exp))
@@ -173,7 +174,10 @@ def problem_spec(
     if obj["family"] == "bench" and obj["bench"] == "ackley":
         pass
     start = draw(start_spec(box, face_bias))
-    return {"obj": obj, "lb": box["lb"], "ub": box["ub"], "x0": start["x0"]}
+    out = {"obj": obj, "lb": box["lb"], "ub": box["ub"], "x0": start["x0"]}
+    if units and draw(st.integers(0, 3)) == 0:
+        out["units"] = {"xs": 10.0 ** draw(st.integers(-6, 6)), "fs": 10.0 ** draw(st.integers(-8, 8))}
+    return out
 
 
 # ----------------------------------------------------------------------------
@@ -189,6 +193,14 @@ class Problem:
         self.lb = np.array([-np.inf if v is None else unjson_float(v) for v in spec["lb"]], dtype=float)
         self.ub = np.array([np.inf if v is None else unjson_float(v) for v in spec["ub"]], dtype=float)
         self.x0 = np.array([unjson_float(v) for v in spec["x0"]], dtype=float)
+        if spec.get("units"):
+            # the same problem in other units: x' = xs*x, f' = fs*f (box and start scaled consistently;
+            # a start on a bound stays exactly on it because both are multiplied by the same number)
+            from vf.families import XScaled
+
+            xs, fs = float(spec["units"]["xs"]), float(spec["units"]["fs"])
+            self.obj = XScaled(self.obj, xs, fs)
+            self.lb, self.ub, self.x0 = self.lb * xs, self.ub * xs, self.x0 * xs
         self.bounds = np.column_stack([self.lb, self.ub])
         self.unbounded = bool(np.all(np.isinf(self.lb)) and np.all(np.isinf(self.ub)))
 
